@@ -291,8 +291,10 @@ Proof. vm_compute. repeat split. repeat constructor. Qed.
    shortcuts, remove (plain, keep_children, with_clones), remove_children, clear, del, move_to (cross-tree
    moves are refused by the code), sort_children (flat and deep), set_data / rename (incl. clone groups),
    metadata edits, new tree, and the copies (add(node) shallow and deep - Node._add_from allocating node
-   by node -, add(tree), copy_to, Tree.copy, Node.copy).  Not modelled: in-place filter, from_dict /
-   Tree.from_dict (compositions of remove / remove_children and of add_child). *)
+   by node -, add(tree), copy_to, Tree.copy, Node.copy).  Modelled at statement level and compared
+   with the implementation on every run, but without a simulation proof: in-place filter (removals
+   interleaved with the visit) and from_dict / Tree.from_dict (with the `except: remove_children(); raise`
+   handler of every level) - they are compositions of remove / remove_children and of add_child. *)
 From NT Require Import Heap HeapProofs HeapRefine.
 
 (* one step: same result, related states *)
